@@ -103,9 +103,10 @@ Qed.
 Lemma hstep_ok st op : map_inv s st ->
   exists st', hstep EF st op = (st', Ok (exp_hans s op)) /\ map_inv s st'.
 Proof.
-  intros Hi. destruct op as [ty k|ty|name|name|name]; cbn [hstep exp_hans].
+  intros Hi. destruct op as [ty k|ty|ty|name|name|name]; cbn [hstep exp_hans].
   - exists st. rewrite iter_take_ok. split; [reflexivity|exact Hi].
   - exists st. rewrite (iter_sections_ok img s Hwf ty). split; [reflexivity|exact Hi].
+  - exists st. rewrite (iter_segments_ok img s Hwf ty). split; [reflexivity|exact Hi].
   - exists (Some (full_map s)). rewrite (ensure_map_ok st Hi). cbn [bind].
     rewrite memb_keys_get, full_map_get. split; [reflexivity|right; reflexivity].
   - exists (Some (full_map s)). rewrite (ensure_map_ok st Hi). cbn [bind].
